@@ -55,10 +55,16 @@ NAMED = {
 }
 
 
-def _bind_check(text, params, rows):
+def _bind_check(text, params, rows, reference=False):
     conn = connect(t=HTable('t', COLS, list(rows)))
     tree = fresh_parse(text)
     literal = substitute_placeholders(fresh_parse(text), params)
+    if reference:
+        # oracle: the reference semantics on the literal tree (the substituted tree keeps the source text of the bound
+        # statement, which the compiler may look at; the reference semantics only sees the tree)
+        want = refsem.Ref({'t': (COLS, list(rows))}).select(literal)
+        got = run_cursor(conn, tree, params)
+        return None if same_rows(got[1], want.rows) else 'rows-differ-from-the-literal-statement'
     try:
         want = run_cursor(connect(t=HTable('t', COLS, list(rows))), literal)
     except beanquery.CompilationError:
@@ -78,7 +84,7 @@ def _bind_check(text, params, rows):
 
 
 def make_bind(name, text, nparams, names=None):
-    pp = {f'p{i}': Optional[int] for i in range(nparams)}
+    pp = {f'p{i}': (int if name.startswith('same-text') else Optional[int]) for i in range(nparams)}
 
     @cond(f'C09.bind.{name}', quick=120, thorough=480,
           bounds=f'"{text}" over a table of <=2 rows (a, b symbolic ints or NULL); parameter values symbolic ints or NULL',
@@ -88,7 +94,7 @@ def make_bind(name, text, nparams, names=None):
         assume(len(rows) <= 2)
         values = [kw[f'p{i}'] for i in range(nparams)]
         params = dict(zip(names, values)) if names else tuple(values)
-        return _bind_check(text, params, rows) or 'ok'
+        return _bind_check(text, params, rows, reference=name.startswith('same-text')) or 'ok'
 
 
 for _name, (_text, _n) in POSITIONAL.items():
@@ -356,6 +362,9 @@ LEDGER_STATEMENTS = [
 ]
 
 
+_FRESH = {}
+
+
 def _in_fork(fn):
     """Run fn() in a forked child and return its (pickled) result."""
     import os
@@ -399,8 +408,12 @@ def history_ledger(i, j):
             text, params = LEDGER_STATEMENTS[k]
             cur = conn.execute(text, params)
             return [(c.name, c.datatype) for c in cur.description], cur.fetchall()
-        # the reference result comes from a process that has executed nothing else (process-wide state counts as history)
-        fresh = _in_fork(lambda: result(ledger.connect(), j))
+        # the reference results come from processes that have executed nothing else (process-wide state counts as
+        # history): all of them are computed at the first call, each in its own fork of this still pristine process
+        if not _FRESH:
+            for k in range(len(LEDGER_STATEMENTS)):
+                _FRESH[k] = _in_fork(lambda k=k: result(ledger.connect(), k))
+        fresh = _FRESH[j]
         conn = ledger.connect()
         result(conn, i)
         return result(conn, j) == fresh
